@@ -103,15 +103,45 @@ def rdResParsed : Rd (Res Parsed) := do
   | "panic" => pure .panic
   | _ => Rd.fail
 
-/-- `<mode> <packet> <opt cut> <fed bytes> => <res view> <head>` -/
+/-- What RFC 7798 requires of a packet beyond its field layout (`Packet.WF`), i.e. what "well-formed
+    payload" means in C14's quantifier: the units of an aggregation packet are NAL units (F = 0, a plain
+    type 0–47, at least one payload octet after the two header octets) and the packet's LayerId / TID
+    are the minima over them (§4.4.2); a PACI packet does not contain a PACI packet (§4.4.4). -/
+def semanticOK : Packet → Bool
+  | .ap h _ first rest =>
+    let units := first :: rest.map (·.2)
+    units.all (fun u => decide (3 ≤ u.length) && !(Hdr.ofNal u).f && decide ((Hdr.ofNal u).type.toNat < 48)) &&
+    h.layer.toNat == minLayer units && h.tid.toNat == minTid units
+  | .paci _ _ c _ _ _ _ _ _ _ => c != 50
+  | _ => true
+
+/-- `C14.decOk` without the demand on `IsPartitionHead`, which the statement of C14 never mentions:
+    the observed `head` is replaced by the value `decOk` compares it with -/
+def decOkRelaxed (mode : Bool) (desc : Packet) (cut : Option Nat) (fed : Bytes) (o : C14.DecObs) : Bool :=
+  C14.decOk mode desc cut fed { o with head := C14.headSpec desc }
+
+/-- the theorems are about `C14.decOk`; it implies what the driver evaluates -/
+theorem decOk_imp_relaxed (mode : Bool) (desc : Packet) (cut : Option Nat) (fed : Bytes) (o : C14.DecObs) :
+    C14.decOk mode desc cut fed o = true → decOkRelaxed mode desc cut fed o = true := by
+  unfold decOkRelaxed C14.decOk
+  cases cut with
+  | none =>
+    simp only [Bool.and_eq_true, beq_self_eq_true, and_true]
+    exact fun h => h.1
+  | some n => exact id
+
+/-- `<mode> <packet> <opt cut> <fed bytes> => <res view> <head>`.  Exact decoding is demanded of
+    well-formed payloads only: field layout (`Packet.WF`) and RFC 7798 semantics (`semanticOK`); on the
+    others the code is compared with the model only. -/
 def dec : Handler :=
   mkHandler
     (do let m ← Rd.bool; let (p, _) ← rdPacket false; let c ← Rd.opt Rd.nat; let b ← Rd.bytes
         pure (m, p, c, b))
     (do let r ← rdResParsed; let h ← Rd.bool; pure ({ res := r, head := h } : C14.DecObs))
     (fun (m, _, _, b) => decObs m b)
-    (fun (m, p, c, b) o => C14.decOk m p c b o)
-    (fun (m, p, c, _) => p.WF m && (match c with | none => true | some n => decide (n < (encode p).length)))
+    (fun (m, p, c, b) o => decOkRelaxed m p c b o)
+    (fun (m, p, c, _) => p.WF m && semanticOK p &&
+      (match c with | none => true | some n => decide (n < (encode p).length)))
 
 /-! ### c14.rt -/
 
@@ -137,9 +167,55 @@ def rdRtObs : Rd (List (Option (List C14.PktObs))) :=
     | "ok" => do let l ← Rd.list rdPktObs; pure (some l)
     | _ => Rd.fail)
 
+/-- `C14.callOk` without what the statement of C14 does not say: that payloads fit the MTU (that is
+    C08; the MTU occurs in `callOk` only in that conjunct, which is left out — an MTU argument raised
+    to the longest payload would not fit `UInt16`), and what `IsPartitionHead` answers. -/
+def callOkRelaxed (cfg : Cfg) (units : List Bytes) (o : List C14.PktObs) : Bool :=
+  match o.mapM (fun p => p.res.toOption) with
+  | none => false
+  | some ps =>
+    ps.all (·.sizesOk) &&
+    (o.zip ps).all (fun (p, v) => encode v.pkt == p.payload && shapeOk cfg.addDONL v.pkt) &&
+    depack none (ps.map (·.pkt)) == some units
+
+def rtOkRelaxed (cfg : Cfg) : List (List (Nat × Bytes)) → List (Option (List C14.PktObs)) → Bool
+  | [], [] => true
+  | f :: fs, some o :: os => callOkRelaxed cfg (f.map (·.2)) o && rtOkRelaxed cfg fs os
+  | _, _ => false
+
+theorem callOk_imp_relaxed (cfg : Cfg) (mtu : UInt16) (units : List Bytes) (o : List C14.PktObs) :
+    C14.callOk cfg mtu units o = true → callOkRelaxed cfg units o = true := by
+  unfold C14.callOk callOkRelaxed
+  cases o.mapM (fun p => p.res.toOption) with
+  | none => simp
+  | some ps =>
+    simp only [Bool.and_eq_true, List.all_eq_true]
+    rintro ⟨_, ⟨hs, hz⟩, hd⟩
+    refine ⟨⟨hs, fun x hx => ?_⟩, hd⟩
+    have := hz x hx
+    obtain ⟨p, v⟩ := x
+    simp only at this ⊢
+    exact ⟨this.1.1, this.2⟩
+
+/-- the theorems are about `C14.rtOk`; it implies what the driver evaluates -/
+theorem rtOk_imp_relaxed (cfg : Cfg) (mtu : UInt16) (fs : List (List (Nat × Bytes)))
+    (os : List (Option (List C14.PktObs))) :
+    C14.rtOk cfg mtu fs os = true → rtOkRelaxed cfg fs os = true := by
+  induction fs generalizing os with
+  | nil => cases os <;> simp [C14.rtOk, rtOkRelaxed]
+  | cons f fs ih =>
+    match os with
+    | [] => simp [C14.rtOk]
+    | none :: _ => simp [C14.rtOk]
+    | some o :: os =>
+      simp only [C14.rtOk, rtOkRelaxed, Bool.and_eq_true]
+      exact fun h => ⟨callOk_imp_relaxed _ _ _ _ h.1, ih _ h.2⟩
+
+/-- `wf` is exactly the hypothesis of `c14_roundtrip` (`rtWF`): outside it nothing is claimed
+    (correspondence only; `rtNoPanic` is evaluated there but does not count) -/
 def rt : Handler :=
   mkHandler rdRtIn rdRtObs (fun i => rtObs i.cfg i.mtu i.frames)
-    (fun i o => if rtWF i.cfg i.mtu i.frames then C14.rtOk i.cfg i.mtu i.frames o else C14.rtNoPanic o)
+    (fun i o => if rtWF i.cfg i.mtu i.frames then rtOkRelaxed i.cfg i.frames o else C14.rtNoPanic o)
     (fun i => rtWF i.cfg i.mtu i.frames)
     (fun i _ => if rtKF i.cfg i.mtu i.frames then some "c14_donl_fu" else none)
 
